@@ -1,6 +1,7 @@
 package vc
 
 import (
+	"strconv"
 	"os"
 	"sort"
 	"fmt"
@@ -176,6 +177,20 @@ func (en *evalEnv) lookupIdent(name string) (ev, bool) {
 			b = b.Idom()
 			if b != nil {
 				idx = len(b.Instrs)
+			}
+		}
+	}
+	if en.point != nil {
+		// a phi of that name in a dominating block (implicit variables such as rangeindex have no debug refs)
+		for d := en.point.Block(); d != nil; d = d.Idom() {
+			for _, in := range d.Instrs {
+				phi, isPhi := in.(*ssa.Phi)
+				if !isPhi {
+					break
+				}
+				if phi.Comment == name && en.hasValue(phi) {
+					return ev{e.val(en.fr, phi), phi.Type()}, true
+				}
 			}
 		}
 	}
@@ -420,7 +435,7 @@ func (en *evalEnv) eval(x Expr) ev {
 			if es == structSort {
 				return ev{e.elemRef(App(SInt, "sl-id", sl), Add(App(SInt, "sl-off", sl), i)), types.NewPointer(u.Elem())}
 			}
-			h := e.heapRead(en.st, "A_"+sortKey(es), ArrSort(ArrSort(es)))
+			h := e.heapRead(en.st, arrComp(u.Elem()), ArrSort(ArrSort(es)))
 			return ev{Select(Select(h, App(SInt, "sl-id", sl)), Add(App(SInt, "sl-off", sl), i)), u.Elem()}
 		case *types.Basic:
 			return ev{App(SInt, "sat", base.v.(*Term), i), types.Typ[types.Byte]}
@@ -604,6 +619,29 @@ func (en *evalEnv) call(x *ECall) ev {
 			id = App(SInt, "sl-id", t)
 		}
 		return ev{Lt(id, e.heapRead(en.old, "$alloc", SInt)), nil}
+	case "hasbits":
+		// hasbits(x, m): x & m == m; decided here for numerals
+		a, b := en.intTerm(x.Args[0]), en.intTerm(x.Args[1])
+		av, aerr := strconv.ParseInt(a.S, 10, 64)
+		bv, berr := strconv.ParseInt(b.S, 10, 64)
+		if aerr == nil && berr == nil {
+			if av&bv == bv {
+				return ev{True, nil}
+			}
+			return ev{False, nil}
+		}
+		return ev{Eq(App(SInt, "uf_and", a, b), b), nil}
+	case "live":
+		// exists now: allocated before this program point (a later make/new differs from it)
+		a := arg(0)
+		t := a.v.(*Term)
+		id := t
+		if t.Sort == SSl {
+			id = App(SInt, "sl-id", t)
+		} else if t.Sort == SObj {
+			id = App(SInt, "o-int", t)
+		}
+		return ev{Lt(id, e.heapRead(en.st, "$alloc", SInt)), nil}
 	case "is":
 		// is(x, T): dynamic type of interface value x is T
 		a := arg(0)
@@ -771,6 +809,45 @@ func (e *Exec) atReturn(fr *Frame, st *State, res []Value, c *Contract) {
 		g := e.evalClause(en, cl)
 		e.oblige(st, "post", clauseName(cl, i), g, "")
 	}
+	if c.Options["frame-arrays"] {
+		// frame condition: every backing array that existed at entry has its entry contents
+		var ks []string
+		for k := range st.heap {
+			if strings.HasPrefix(k, "A_") && arrCompSort(k) != "" {
+				ks = append(ks, k)
+			}
+		}
+		sort.Strings(ks)
+		for _, k := range ks {
+			es := arrCompSort(k)
+			now := e.heapRead(st, k, ArrSort(ArrSort(es)))
+			was := e.heapRead(e.entry, k, ArrSort(ArrSort(es)))
+			if now.S == was.S {
+				continue
+			}
+			e.oblige(st, "frame", k, e.frameRows(now, was, e.heapRead(e.entry, "$alloc", SInt)), "")
+		}
+	}
+}
+
+// arrCompSort: element sort of an array component, by its name.
+func arrCompSort(comp string) string {
+	switch {
+	case comp == "A_Int":
+		return SInt
+	case comp == "A_Bool":
+		return SBool
+	case comp == "A_Obj":
+		return SObj
+	case strings.HasPrefix(comp, "A_Sl_"):
+		return SSl
+	}
+	return ""
+}
+
+// frameRows: the arrays with an id below bound are the same in now and was.
+func (e *Exec) frameRows(now, was, bound *Term) *Term {
+	return &Term{fmt.Sprintf("(forall ((a!fr Int)) (! (=> (< a!fr %s) (= (select %s a!fr) (select %s a!fr))) :pattern ((select %s a!fr))))", bound.S, now.S, was.S, now.S), SBool}
 }
 
 func (e *Exec) callByContract(fr *Frame, st *State, x *ssa.Call, callee *ssa.Function, ct *Contract) (Value, bool) {
@@ -808,7 +885,24 @@ func (e *Exec) callByContract(fr *Frame, st *State, x *ssa.Call, callee *ssa.Fun
 			}
 		}
 	} else {
-		e.havoc(st, e.P.ModSetOf(callee))
+		ms := e.P.ModSetOf(callee)
+		e.havoc(st, ms)
+		if ct.Options["frame-arrays"] && !ms.All {
+			// the callee's frame condition: arrays allocated before the call keep their contents
+			var ks []string
+			for k := range ms.Comps {
+				if strings.HasPrefix(k, "A_") && arrCompSort(k) != "" {
+					ks = append(ks, k)
+				}
+			}
+			sort.Strings(ks)
+			for _, k := range ks {
+				es := arrCompSort(k)
+				was := e.heapRead(pre, k, ArrSort(ArrSort(es)))
+				now := e.heapRead(st, k, ArrSort(ArrSort(es)))
+				e.assume(st.pc, e.frameRows(now, was, e.heapRead(pre, "$alloc", SInt)))
+			}
+		}
 	}
 	e.bumpAlloc(st)
 	res := e.callResult(st, x)
